@@ -1,6 +1,7 @@
 SPECIFICATION Spec
 CONSTANT Alphabet <- mc_Alphabet
 CONSTANT MaxLen = 5
+CONSTANT MaxExpDigits = 3
 CONSTANT Export = FALSE
 CONSTANT PairLen = 3
 CONSTANT ZeroMantissaExpRejected = TRUE
